@@ -26,7 +26,7 @@ static bool conservative(int f) { return f <= F_SPRINGS_BUSHING; }
 enum Cons { C_NONE, C_ROD, C_BALL, NCONS };
 static const char* consName(int c) { static const char* n[] = {"none", "Rod", "Ball"}; return n[c]; }
 enum Integ { I_RK3, I_RKF, I_RKM, I_VERLET, I_CPODES, I_EULER, NINTEG };
-static const char* integName(int i) { static const char* n[] = {"RungeKutta3", "RungeKuttaFeldberg", "RungeKuttaMerson", "Verlet", "CPodes", "ExplicitEuler(h=1e-4)"}; return n[i]; }
+static const char* integName(int i) { static const char* n[] = {"RungeKutta3", "RungeKuttaFeldberg", "RungeKuttaMerson", "Verlet", "CPodes", "ExplicitEuler(h=1e-5)"}; return n[i]; }
 static const double ACC[3] = {1e-3, 1e-5, 1e-7};
 
 struct ModelSpec { std::vector<mb::BodySpec> specs; bool freeFloating = false; std::string name; };
@@ -132,14 +132,15 @@ static Integrator* makeIntegrator(int kind, const System& sys, double acc) {
         case I_RKM: I = new RungeKuttaMersonIntegrator(sys); break;
         case I_VERLET: I = new VerletIntegrator(sys); break;
         case I_CPODES: I = new CPodesIntegrator(sys); break;
-        default: I = new ExplicitEulerIntegrator(sys); I->setFixedStepSize(1e-4); break;
+        default: I = new ExplicitEulerIntegrator(sys); I->setFixedStepSize(1e-5); break;
     }
     I->setAccuracy(acc);
+    if (kind != I_EULER) I->setInternalStepLimit(5000);      // per report interval: bounds the cost of (near-)singular cells deterministically
     return I;
 }
 
 struct SimResult {
-    bool ok = false; std::string why;
+    bool ok = false, stepLimit = false, threw = false; std::string why;
     double Escale = 0, maxDrift = 0, maxIncrease = 0, maxBalance = 0, KEmax = 0, E0 = 0;
     double maxLin = 0, maxAng = 0, maxLinGrav = 0, maxCentral = 0, pScale = 0, LScale = 0;
     double maxPitch = 0, consErr = 0; long steps = 0;
@@ -161,10 +162,12 @@ static SimResult simulate(Built& B, int integ, double acc, double T, int nReport
         const double mass = M.matter.calcSystemMass(st0);
         double KEmax = KE0, dPEmax = 0, Eprev = R.E0;
         for (int i = 1; i <= nReport; ++i) {
-            Integrator::SuccessfulStepStatus st = Integrator::InvalidSuccessfulStepStatus;
-            for (int guard = 0; guard < 4 && st != Integrator::ReachedReportTime; ++guard) st = I->stepTo(T * i / nReport);    // the first call reports StartOfContinuousInterval
+            Integrator::SuccessfulStepStatus st = I->stepTo(T * i / nReport);
+            if (st == Integrator::StartOfContinuousInterval) st = I->stepTo(T * i / nReport);    // the first call only reports the start of the interval
+            if (st == Integrator::ReachedStepLimit) { R.stepLimit = true; R.why = "step limit"; return R; }
             if (st != Integrator::ReachedReportTime) { R.why = std::string("stepTo returned ") + Integrator::getSuccessfulStepStatusString(st); return R; }
             const State& sx = I->getState();
+            if (getenv("C11_PROGRESS")) { fprintf(stderr, "  t=%g steps=%d attempted=%d errtest=%d convfail=%d projfail=%d realizefail=%d h=%g\n", sx.getTime(), I->getNumStepsTaken(), I->getNumStepsAttempted(), I->getNumErrorTestFailures(), I->getNumConvergenceTestFailures(), I->getNumProjectionFailures(), I->getNumRealizationFailures(), I->getPreviousStepSizeTaken()); }
             M.system.realize(sx, Stage::Dynamics);
             const double KE = M.system.calcKineticEnergy(sx), PE = M.system.calcPotentialEnergy(sx), E = KE + PE;
             KEmax = std::max(KEmax, KE); dPEmax = std::max(dPEmax, std::abs(PE - PE0));
@@ -184,14 +187,24 @@ static SimResult simulate(Built& B, int integ, double acc, double T, int nReport
         R.pScale = std::sqrt(2 * mass * std::max(KEmax, 1e-300)); R.LScale = R.pScale * 2.0;
         R.steps = I->getNumStepsTaken();
         R.ok = true;
-    } catch (const std::exception& e) { R.why = std::string("exception: ") + e.what(); }
+    } catch (const std::exception& e) { R.threw = true; R.why = std::string("exception: ") + e.what(); }
     return R;
 }
 
-// calibrated constants: err <= K * accuracy * scale (see notes/C11.md; >= 100x the worst value on the unchanged tree)
-static double Kenergy(int integ) { static const double k[] = {1e4, 1e4, 1e4, 1e4, 1e4, 0}; return k[integ]; }
-static const double K_EULER = 1.0;          // ExplicitEuler sanity row: |dE| <= K_EULER * Escale  (h = 1e-4, first order)
-static const double K_MOMENTUM = 1e4;
+// Calibrated constants: err <= K * accuracy * scale.  K >= 100x the worst value observed on the unchanged tree over both tiers and
+// all three value sets (table in notes/C11.md); rows for which 100x the worst case would exceed a relative error of ~0.1 are not in the matrix.
+static double Kenergy(int integ, int ai) {
+    if (integ == I_RK3) return ai == 1 ? 2e4 : 3e4;
+    if (integ == I_RKM) return ai == 1 ? 2e4 : 3e4;
+    if (integ == I_RKF) return 2e5;
+    return 5e5;   // CPodes
+}
+static double Kmomentum(int integ, int ai) {
+    if (integ == I_RK3) return 2e3;
+    if (integ == I_RKM) return ai == 1 ? 3e3 : 1e4;
+    return 1e5;   // RKF, CPodes at 1e-7
+}
+static const double K_EULER = 1.0;          // ExplicitEuler sanity row: |dE| <= K_EULER * Escale  (h = 1e-5, first order)
 
 int main(int argc, char** argv) {
     verif::Run run("C11", argc, argv);
@@ -212,7 +225,13 @@ int main(int argc, char** argv) {
         if (th && c != C_NONE && (m % 4) != 0) continue;     // thorough: constraints on every 4th model of the full family cube
         units.push_back({m, f, c});
     }
-    std::vector<int> integs = {I_RK3, I_RKF, I_RKM, I_VERLET, I_CPODES};
+    // rows of the matrix for which a useful constant exists (notes/C11.md): (integrator, accuracy index)
+    struct Row { int integ, ai; };
+    const std::vector<Row> rows = {{I_RK3, 1}, {I_RK3, 2}, {I_RKM, 1}, {I_RKM, 2}, {I_RKF, 2}, {I_CPODES, 2}};
+    std::vector<int> integs = {I_RK3, I_RKF, I_RKM, I_CPODES};
+    const bool allRows = run.hasFlag("--all-rows");     // calibration aid: every integrator (incl. Verlet) at every accuracy, oracles still only on the rows above
+    if (allRows) integs = {I_RK3, I_RKF, I_RKM, I_VERLET, I_CPODES};
+    auto isRow = [&](int integ, int ai) { for (auto& r : rows) if (r.integ == integ && r.ai == ai) return true; return false; };
     run.parallel("cells", (int64_t)units.size(), [&](int64_t ui) {
         const Unit u = units[ui];
         const ModelSpec& ms = models[u.model];
@@ -222,17 +241,25 @@ int main(int argc, char** argv) {
         catch (const std::exception& e) { run.count("skipped:build-threw"); if (run.verbose) printf("build threw: %s\n", e.what()); return; }
         FILE* dump = dumpPath.empty() ? nullptr : fopen((dumpPath + "." + std::to_string(ui)).c_str(), "w");
         std::vector<int> il = integs;
-        if (u.cons == C_NONE && (u.fset == F_GRAV || u.fset == F_GRAV_SPRINGS) && (u.model % 6) == 0) il.push_back(I_EULER);   // sanity row on a few cells
+        if (u.cons == C_NONE && (u.fset == F_GRAV || u.fset == F_GRAV_SPRINGS) && (u.model % 12) == 0) il.push_back(I_EULER);   // sanity row on a few cells
+        int onlyInteg = -1, onlyAcc = -1; for (size_t i = 0; i + 1 < run.extra.size(); ++i) { if (run.extra[i] == "--only-integ") onlyInteg = atoi(run.extra[i + 1].c_str()); if (run.extra[i] == "--only-acc") onlyAcc = atoi(run.extra[i + 1].c_str()); }
         for (int integ : il) {
+            if (onlyInteg >= 0 && integ != onlyInteg) continue;
             double errAt[3] = {-1, -1, -1}, scaleAt[3] = {0, 0, 0};
             const int nacc = integ == I_EULER ? 1 : 3;
             for (int ai = 0; ai < nacc; ++ai) {
                 const double acc = ACC[ai];
+                if (onlyAcc >= 0 && ai != onlyAcc) continue;
+                if (integ != I_EULER && !allRows && !isRow(integ, ai)) continue;
                 const std::string desc = base + " integrator=" + integName(integ) + " accuracy=" + verif::jsonNum(acc);
                 auto where = [&] { return desc; };
                 SimResult R = simulate(B, integ, acc, T, NREPORT);
                 const bool nontrivial = R.ok && R.Escale > 1e-3;
                 run.evaluation(verif::hashStr(desc), nontrivial);
+                if (R.stepLimit) { run.count(std::string("unspecified:step-limit(5000/interval)/") + integName(integ)); continue; }
+                // An integrator that gives up (documented exception from stepTo: step size underflow / CPodes failure at a singular configuration of a
+                // closed loop) is outside the premise of the property; counted, and the total is bounded after the enumeration.
+                if (R.threw) { run.count(std::string("unspecified:integrator-gave-up/") + integName(integ)); if (run.verbose) printf("%s\n  %s\n", desc.c_str(), R.why.c_str()); continue; }
                 if (!R.ok) { run.expect(false, std::string("simulation-failed/") + integName(integ), [&] { return R.why + " at " + desc; }); continue; }
                 run.outcome(verif::hashMix(verif::hashPod((float)R.maxDrift), verif::hashPod(R.steps)));
                 if (!nontrivial) { run.count("trivial:no-energy-exchanged"); continue; }
@@ -240,39 +267,41 @@ int main(int argc, char** argv) {
                 const std::string tag = std::string(integName(integ)) + "/acc=" + verif::jsonNum(acc);
                 const double bound = acc * R.Escale;
                 if (dump) fprintf(dump, "%s\t%g\t%d\t%d\t%d\t%g\t%g\t%g\t%g\t%g\t%g\t%g\t%g\t%ld\t%s\n", integName(integ), acc, u.fset, u.cons, (int)ms.freeFloating, R.Escale, R.maxDrift, R.maxIncrease, R.maxBalance, R.maxLin / R.pScale, R.maxAng / R.LScale, R.maxLinGrav / R.pScale, R.maxCentral / R.LScale, R.steps, ms.name.c_str());
+                if (integ != I_EULER && !isRow(integ, ai)) continue;     // (calibration only)
                 if (integ == I_EULER) {
                     if (conservative(u.fset)) run.residual("energy-drift/ExplicitEuler-fixed-step-sanity", R.maxDrift / R.Escale, K_EULER, where);
                     continue;
                 }
                 if (conservative(u.fset)) {
-                    run.residual("energy-drift/" + tag, R.maxDrift / bound, Kenergy(integ), where);
+                    run.residual("energy-drift/" + tag, R.maxDrift / bound, Kenergy(integ, ai), where);
                     errAt[ai] = R.maxDrift; scaleAt[ai] = R.Escale;
                 } else {
-                    run.residual("energy-increase-with-dissipation/" + tag, std::max(0.0, R.maxIncrease) / bound, Kenergy(integ), where);
-                    if (u.fset == F_BUSHING_DAMPED) { run.residual("energy-plus-dissipated/" + tag, R.maxBalance / bound, Kenergy(integ), where); errAt[ai] = R.maxBalance; scaleAt[ai] = R.Escale; }
+                    run.residual("energy-increase-with-dissipation/" + tag, std::max(0.0, R.maxIncrease) / bound, Kenergy(integ, ai), where);
+                    if (u.fset == F_BUSHING_DAMPED) { run.residual("energy-plus-dissipated/" + tag, R.maxBalance / bound, Kenergy(integ, ai), where); errAt[ai] = R.maxBalance; scaleAt[ai] = R.Escale; }
                     if (R.E0 - 0 > 0 && R.maxDrift > 100 * bound) run.count("dissipation-visible");
                 }
                 // momentum (free-floating base; forces internal or uniform gravity)
                 if (ms.freeFloating && u.fset != F_DAMPERS) {
                     if (B.gravity.norm() == 0) {
-                        run.residual("linear-momentum/" + tag, R.maxLin / (acc * R.pScale), K_MOMENTUM, where);
-                        run.residual("angular-momentum-about-origin/" + tag, R.maxAng / (acc * R.LScale), K_MOMENTUM, where);
+                        run.residual("linear-momentum/" + tag, R.maxLin / (acc * R.pScale), Kmomentum(integ, ai), where);
+                        run.residual("angular-momentum-about-origin/" + tag, R.maxAng / (acc * R.LScale), Kmomentum(integ, ai), where);
                     } else {
-                        run.residual("linear-momentum-minus-Mgt/" + tag, R.maxLinGrav / (acc * R.pScale), K_MOMENTUM, where);
-                        run.residual("central-angular-momentum/" + tag, R.maxCentral / (acc * R.LScale), K_MOMENTUM, where);
+                        run.residual("linear-momentum-minus-Mgt/" + tag, R.maxLinGrav / (acc * R.pScale), Kmomentum(integ, ai), where);
+                        run.residual("central-angular-momentum/" + tag, R.maxCentral / (acc * R.LScale), Kmomentum(integ, ai), where);
                     }
                 }
                 if (run.verbose) printf("%s\n  Escale=%.6g drift=%.3g (%.3g x acc) increase=%.3g balance=%.3g lin=%.3g ang=%.3g steps=%ld qerr=%.2g\n", desc.c_str(), R.Escale, R.maxDrift, R.maxDrift / bound, R.maxIncrease, R.maxBalance, R.maxLin, R.maxAng, R.steps, R.consErr);
             }
-            // ladder: 100x tighter accuracy => error at least 10x smaller, down to a floor of 10 * accuracy * Escale
-            for (int ai = 0; ai + 1 < 3; ++ai) if (errAt[ai] >= 0 && errAt[ai + 1] >= 0) {
-                const double floor = 10 * ACC[ai + 1] * scaleAt[ai + 1];
-                const std::string desc = base + " integrator=" + integName(integ) + " ladder " + verif::jsonNum(ACC[ai]) + "->" + verif::jsonNum(ACC[ai + 1]);
-                run.residual(std::string("ladder/") + integName(integ), errAt[ai + 1] / std::max(errAt[ai] / 10, floor), 1.0, [&] { return desc + " errors " + verif::jsonNum(errAt[ai]) + " -> " + verif::jsonNum(errAt[ai + 1]); });
-            }
+            // ladder statistic (not an oracle, see notes/C11.md): how often does a 100x tighter accuracy buy a 10x smaller error?
+            if (errAt[1] > 0 && errAt[2] >= 0) run.count(std::string(errAt[2] <= errAt[1] / 10 ? "ladder:shrinks>=10x/" : "ladder:shrinks<10x/") + integName(integ));
         }
         if (dump) fclose(dump);
         if (ui % 97 == 0) run.sample(base);
     });
+    if (!run.replaying()) {
+        int64_t gaveUp = 0, limited = 0; for (auto& kv : run.acc.counters) { if (kv.first.rfind("unspecified:integrator-gave-up/", 0) == 0) gaveUp += kv.second; if (kv.first.rfind("unspecified:step-limit", 0) == 0) limited += kv.second; }
+        run.expect(gaveUp * 50 <= run.acc.evaluations, "too-many-simulations-gave-up", [&] { return std::to_string(gaveUp) + " of " + std::to_string(run.acc.evaluations) + " simulations ended with an integrator exception"; });
+        run.expect(limited * 10 <= run.acc.evaluations, "too-many-simulations-hit-the-step-limit", [&] { return std::to_string(limited) + " of " + std::to_string(run.acc.evaluations) + " simulations hit the step limit"; });
+    }
     return run.finish();
 }
